@@ -153,18 +153,29 @@ def check_pdf(chk, rep, repo):
         raise AnalysisError("calculate_pdf: pdf array not found")
     pdf = pdf_stores[0].target[1]
     per = w.loops[pdf_stores[0].loops[0]]
-    i = ("iter", per.domain, per.lid)
-    full = count_of(per.domain[2][-1]) == G and len(per.domain[2]) == 1
+    from ..schema import node_loop
+    nlp = node_loop(per)
+    full = nlp is not None and nlp[0] == G and nlp[1] is not None
     rep.fn("PDF-all-nodes", fn, "the pdf is computed for every node", full, f"loop domain {show(per.domain)}", line=per.line)
+    i = nlp[1] if full else ("iter", per.domain, per.lid)
     pi = ("idx", pdf, i)
     zero = [e for e in pdf_stores if e.target == pi and not e.aug and e.value in (("const", 0), ("const", 0.0))
             and e.loops == (per.lid,)]
     adds = [e for e in pdf_stores if e.target == pi and e.aug == "+"]
     divs = [e for e in pdf_stores if e.target == pi and e.aug == "/"]
+    if not zero and adds and pdf[1] == "numpy.zeros" and pdf[2] and count_of(pdf[2][0]) == G:
+        # the array is allocated as zeros in this call and slot i is first touched by the accumulation of node i
+        alloc_ev = [e for e in w.events if e.kind == "call" and e.value == pdf]
+        early = [e for e in pdf_stores if e.seq < adds[0].seq and e.target != pi]
+        if len(alloc_ev) == 1 and not alloc_ev[0].loops and not early:
+            zero = alloc_ev
     okacc = False
     detail = "expected pdf[i] = 0; for r < k: pdf[i] += exp(-w(i, adj_r)/constant); pdf[i] /= k + 1"
     kparam = ("param", fn.params[1])
-    if len(zero) == 1 and len(adds) == 1 and len(divs) == 1:
+    stray = [e for e in pdf_stores if e.target[1] == pdf and e not in zero and e not in adds and e not in divs]
+    for e in stray:
+        rep.ev("PDF-stray", e, False, "the pdf array may only be reset, accumulated and divided (per node)")
+    if len(zero) == 1 and len(adds) == 1 and len(divs) == 1 and not stray:
         a = adds[0]
         inner = w.loops[a.loops[-1]] if len(a.loops) == 2 else None
         if inner is not None and inner.domain == ("call", ("builtin", "range"), (kparam,), ()):
